@@ -191,6 +191,19 @@ def run(ctx):
                      "Server::startup has no deadline: a server that accepts the TCP connection and then says nothing keeps the attempt - and its slot of the pool - for ever; "
                      "with pool_size = 1 every later checkout times out, also after the server has recovered", st7[0].where())
 
+    # ... and comes back whatever the server sends: bb8 runs connect() in a task of its own and counts the attempt until the call *returns*. Server::startup parses
+    # the server's bytes with unwraps, slices and unchecked reads; a panic there would unwind through connect() and bb8 would never get the attempt back - one slot of
+    # pool_size gone for good per such reply. The startup future is awaited under catch_unwind, a panic ends the attempt like any other failure (D78)
+    if cb7:
+        st8 = cb7.calls("pgcat::server::Server::startup")
+        cu8 = [c for c in cb7.calls("re:(^|::)catch_unwind$") if any(o.kind == "call" and o.call.name == "pgcat::server::Server::startup" for o in origins(cb7, c.args[0], taint=True))]
+        to8 = [t for t in cb7.calls("re:^tokio::time::timeout::timeout$") if len(t.args) > 1 and any(o.kind == "call" and o.call.block in {c.block for c in cu8} for o in origins(cb7, t.args[1], taint=True))]
+        reraise = [c.where() for n_, b_ in F.bodies.items() if n_.startswith("<pgcat::pool::ServerPool as bb8::api::ManageConnection>::connect") for c in b_.calls("re:panic::resume_unwind$|panicking::panic(_fmt|_any|_display)?$|rust_panic")]
+        r7.check(not reraise, "caught-panic-not-raised-again", "nothing in connect() raises a caught panic again", "connect() re-raises the panic it caught (%s): the attempt is lost to bb8 as before" % reraise[:1])
+        r7.check(bool(st8) and bool(cu8) and bool(to8), "startup-cannot-unwind-through-connect", "Server::startup is awaited under catch_unwind (and that under the connect timeout)",
+                 "Server::startup is awaited in ServerPool::connect without catch_unwind: a reply that makes the startup parser panic (a ParameterStatus without its terminating NUL is enough: read_string().unwrap()) unwinds through "
+                 "connect(), bb8 never gets the attempt back and the slot is lost - with pool_size = 2, two such replies and every client is refused although the server has long been healthy again", st8[0].where() if st8 else "")
+
     # ---------------- R8 a connection that stopped answering does not keep its slot
     r8 = ctx.rule("C04-R8", "`after any history the full capacity is available again`: a pooled connection that did not answer within its deadline (health check at checkout, a client's statement) is marked bad on the "
                   "elapsed arm, so bb8's has_broken() evicts it and its slot is free for a new connection - a silent connection that went back to the idle queue would be handed out again and again", floor=2)
